@@ -34,6 +34,8 @@ def run(ctx):
                                  'neural_network_{}'})
     rule_P5(ctx, 'Sampler', init, 'self')
     rule_P9(ctx, init, 'self')
+    from ..persist import rule_P12
+    rule_P12(ctx, init, 'self')
     rule_P11(ctx)
     rule_P8(ctx)      # the emulator's hyper-parameters survive the round trip
     rule_K2(ctx)      # cached values never outlive the state they were computed from
